@@ -11,13 +11,13 @@ open S3V.FsPath
 
 /-- root `/r`: bucket string `.upload-u.json` resolves to the very path of the ownership record of upload `u` -/
 theorem trait_bucket_can_name_a_bookkeeping_file :
-    getBucketPath ⟨[47, 119], [47, 114]⟩ (uploadInfoName [117]) = uploadInfoPath ⟨[47, 119], [47, 114]⟩ [117] := by
+    getBucketPath { cwd := [47, 119], root := [47, 114] } (uploadInfoName [117]) = uploadInfoPath { cwd := [47, 119], root := [47, 114] } [117] := by
   rfl
 
 /-- before e22160c the object path was `root.join(bucket).join(key)` put through `absolutize_virtually`, which
     resolves `..` lexically: key `../b2/x` in bucket `b1` gave `/r/b2/x`. In the model: -/
 theorem old_join_crossed_buckets :
-    resolveAbsPath ⟨[47, 119], [47, 114]⟩ (join (join [47, 114] [98, 49]) [46, 46, 47, 98, 50, 47, 120]) =
+    resolveAbsPath { cwd := [47, 119], root := [47, 114] } (join (join [47, 114] [98, 49]) [46, 46, 47, 98, 50, 47, 120]) =
       .ok [47, 114, 47, 98, 50, 47, 120] := by
   rfl
 
@@ -25,13 +25,13 @@ theorem old_join_crossed_buckets :
     and `absolutize_virtually` only checks "under the root" — a key spelling the store's own root (`/r/b2/x`) joined
     onto bucket directory `/r/b1` resolves, unrefused, into bucket `b2` -/
 theorem absolute_key_replaces_bucket_dir :
-    resolveAbsPath ⟨[47, 119], [47, 114]⟩ (join [47, 114, 47, 98, 49] [47, 114, 47, 98, 50, 47, 120]) =
+    resolveAbsPath { cwd := [47, 119], root := [47, 114] } (join [47, 114, 47, 98, 49] [47, 114, 47, 98, 50, 47, 120]) =
       .ok [47, 114, 47, 98, 50, 47, 120] := by
   rfl
 
 /-- … which `get_object_path` prevents: the same key is refused -/
 theorem absolute_key_refused :
-    getObjectPath ⟨[47, 119], [47, 114]⟩ [98, 49] [47, 114, 47, 98, 50, 47, 120] = .error .invalidArgument := by rfl
+    getObjectPath { cwd := [47, 119], root := [47, 114] } [98, 49] [47, 114, 47, 98, 50, 47, 120] = .error .invalidArgument := by rfl
 
 /-- … and key `..` under a relative bucket path made path-dedot run on an empty token list -/
 theorem old_key_dotdot_panics : dedotFrom false [47, 119] [98, 49, 47, 46, 46] = .panic := by rfl
